@@ -229,9 +229,62 @@ fn flood(out: &mut Out, senders: usize, per_sender: usize) {
     }
 }
 
+/// two sender handles, same call count on each, deadlines forced onto (nearly) the same Instant by
+/// asking for duration = target - now: a good share of the pairs coincide to the nanosecond.
+/// Of each pair the second timer is cancelled for odd k: the first must still be delivered.
+fn forced_same_instant(out: &mut Out, pairs: usize) {
+    use std::sync::{Arc, Barrier};
+    let mut q = EventReceiver::<u64>::default();
+    let base = Instant::now() + Duration::from_millis(30);
+    let barrier = Arc::new(Barrier::new(2));
+    let handles: Vec<_> = (0..2u64).map(|t| {
+        let s = q.sender().clone();
+        let barrier = barrier.clone();
+        std::thread::spawn(move || {
+            let mut v = Vec::with_capacity(pairs);
+            for k in 0..pairs as u64 {
+                let target = base + Duration::from_micros(k * 40);
+                barrier.wait();
+                let d = target.saturating_duration_since(Instant::now());
+                let e = ev(t, 3, k);
+                let id = s.send_with_timer(e, d);
+                let cancelled = t == 1 && k % 2 == 1;
+                if cancelled { s.cancel_timer(id); }
+                v.push((timer_id_parts(&id).0, e, cancelled));
+            }
+            v
+        })
+    }).collect();
+    let mut all: Vec<Vec<(u128, u64, bool)>> = vec![];
+    for h in handles { all.push(h.join().unwrap()); }
+    let mut received: HashSet<u64> = HashSet::new();
+    let mut dups = 0u64;
+    let end = Instant::now() + Duration::from_millis(30 + (pairs as u64 * 40) / 1000 + 400);
+    while Instant::now() < end {
+        if let Some(e) = q.receive_timeout(Duration::from_millis(20)) { if !received.insert(e) { dups += 1; } }
+    }
+    let mut same = 0u64; let mut same_one_cancelled = 0u64; let mut lost = 0u64; let mut lost_in_pair = 0u64; let mut cancelled_delivered = 0u64;
+    for k in 0..pairs {
+        let (a, b) = (all[0][k], all[1][k]);
+        let coincide = a.0 == b.0;
+        if coincide { same += 1; if b.2 { same_one_cancelled += 1; } }
+        for x in [a, b] {
+            if x.2 { if received.contains(&x.1) { cancelled_delivered += 1; } }
+            else if !received.contains(&x.1) { lost += 1; if coincide { lost_in_pair += 1; } }
+        }
+    }
+    out.add("forced_pairs", pairs as u64);
+    out.add("forced_pairs_on_the_same_instant", same);
+    out.add("forced_pairs_same_instant_one_cancelled", same_one_cancelled);
+    if lost > 0 || cancelled_delivered > 0 || dups > 0 {
+        out.violation(&format!("[C06,C08] two sender handles scheduling timers on the same instant: {} of {} pairs coincided; {} non-cancelled timers never delivered ({} of them in a coinciding pair), {} cancelled timers delivered, {} duplicates", same, pairs, lost, lost_in_pair, cancelled_delivered, dups));
+    }
+}
+
 pub fn run(a: &Args) {
     let mut out = Out::new(&a.out);
     let mut r = Rng::new(a.seed);
+    forced_same_instant(&mut out, if a.thorough { 20_000 } else { 3_000 });
     flood(&mut out, 8, if a.thorough { 400_000 } else { 100_000 });
     let scenarios: Vec<Scenario> = if a.thorough {
         let mut v = vec![];
